@@ -1,0 +1,202 @@
+//go:build verif
+
+package kvstore
+
+// Contracts for the BatchedWriter and its BatchCollector (property C08), read by the verification machinery in
+// /verif. Comment-only file.
+//
+// What the objects handed to the writer do is not known (BatchWriteObject is an interface): its four methods are
+// ghost events. The contracts pin down the order and the number of these events:
+//
+// * BatchCollector.Add(o): the scheduled flag of o is reset BEFORE o is marshalled (an Enqueue of a modified o after
+//   BatchWrite must not be swallowed as "already scheduled"), o is marshalled into THIS collector's mutations exactly
+//   once, the writer's scheduledCount goes down by exactly one, and o is recorded at the next free index.
+// * BatchCollector.Commit(): an empty batch is cancelled and nothing else happens; otherwise the mutations are
+//   committed exactly once, and only after that succeeded BatchWriteDone is called - once per recorded index, in
+//   order; if the commit fails no BatchWriteDone is called at all.
+// * Enqueue counts the object in scheduledCount BEFORE it is sent to the queue (the writer's loop condition
+//   "running || scheduledCount != 0" must never see an accepted object as absent).
+// * The writer goroutine is counted in the WaitGroup by the code that starts it (before the go statement) and
+//   leaves it exactly once; StopBatchWriter waits for it while holding the start/stop mutex.
+// * runBatchWriter: every collector that received objects is committed before the writer drops it; the writer only
+//   returns when running is false and scheduledCount is zero.
+
+/*@
+global nreset IntArr      -- object -> number of ResetBatchWriteScheduled calls (ghost)
+global nwrite IntArr      -- object -> number of BatchWrite calls (ghost)
+global wmuts IntArr       -- object -> the mutations its last BatchWrite went into (ghost)
+global ndone Int          -- number of BatchWriteDone calls so far (ghost)
+global donelog IntArr     -- k -> receiver of the k-th BatchWriteDone call (ghost)
+global ncommit IntArr     -- mutations -> number of Commit calls (ghost)
+global ncancel IntArr     -- mutations -> number of Cancel calls (ghost)
+global commitok BoolArr   -- mutations -> its last Commit returned nil (ghost)
+global pending Int        -- objects marshalled into a collector that has not been committed yet (ghost)
+global counted Bool       -- Enqueue has counted the object it is about to send (ghost)
+global cnt0 Int           -- scheduledCount just before Enqueue counted the object (ghost)
+global storefailed Bool   -- the store has reported an error to the writer (ghost)
+
+-- the object interface: events only. Assumed: an implementation does not reach the collector or the writer
+-- (both are private to the writer goroutine).
+func BatchWriteObject.ResetBatchWriteScheduled(o)
+  modifies ghost(nreset)
+  ensures nreset == upd(old(nreset), o, sel(old(nreset), o) + 1)
+func BatchWriteObject.BatchWrite(o, batchedMuts)
+  modifies ghost(nwrite), ghost(wmuts)
+  ensures nwrite == upd(old(nwrite), o, sel(old(nwrite), o) + 1)
+  ensures wmuts == upd(old(wmuts), o, batchedMuts)
+func BatchWriteObject.BatchWriteDone(o)
+  modifies ghost(ndone), ghost(donelog)
+  ensures ndone == old(ndone) + 1 && donelog == upd(old(donelog), old(ndone), o)
+func BatchWriteObject.BatchWriteScheduled(o) (r)
+  ensures true
+func BatchedMutations.Commit(m) (err)
+  modifies ghost(ncommit), ghost(commitok)
+  ensures ncommit == upd(old(ncommit), m, sel(old(ncommit), m) + 1)
+  ensures commitok == upd(old(commitok), m, err == nil)
+func BatchedMutations.Cancel(m)
+  modifies ghost(ncancel)
+  ensures ncancel == upd(old(ncancel), m, sel(old(ncancel), m) + 1)
+
+func newBatchCollector
+  requires batchSize >= 0
+  ensures r0 != nil && fresh(r0) && r0.batchedMuts == batchedMuts && r0.scheduledCount == scheduledCount && r0.batchSize == batchSize
+  ensures len(r0.writtenValues) == batchSize && r0.writtenValuesCounter == 0 && !r0.committed
+
+func BatchCollector.Add
+  opt sequential
+  opt assume-no-overflow            -- scheduledCount is a 32-bit counter of queued objects
+  panics-iff br.committed
+  requires br != nil && br.scheduledCount != nil && objectToPersist != nil
+  requires 0 <= br.writtenValuesCounter && br.writtenValuesCounter < len(br.writtenValues) && len(br.writtenValues) == br.batchSize
+  modifies br.writtenValuesCounter, elems(br.writtenValues), atomic(br.scheduledCount), ghost(nreset), ghost(nwrite), ghost(wmuts), ghost(pending)
+  ghost before call BatchWriteObject.BatchWrite: assert sel(nreset, objectToPersist) == old(sel(nreset, objectToPersist)) + 1
+  ghost after call BatchWriteObject.BatchWrite: pending = pending + 1
+  ensures sel(nreset, objectToPersist) == old(sel(nreset, objectToPersist)) + 1
+  ensures sel(nwrite, objectToPersist) == old(sel(nwrite, objectToPersist)) + 1 && sel(wmuts, objectToPersist) == br.batchedMuts
+  ensures forall x Int :: x != objectToPersist ==> sel(nreset, x) == old(sel(nreset, x)) && sel(nwrite, x) == old(sel(nwrite, x)) && sel(wmuts, x) == old(sel(wmuts, x))
+  ensures aload(br.scheduledCount) == old(aload(br.scheduledCount)) - 1
+  ensures br.writtenValuesCounter == old(br.writtenValuesCounter) + 1 && br.writtenValues[old(br.writtenValuesCounter)] == objectToPersist
+  ensures forall k Int :: 0 <= k && k < old(br.writtenValuesCounter) ==> br.writtenValues[k] == old(br.writtenValues[k])
+  ensures r0 <==> br.writtenValuesCounter >= br.batchSize
+  ensures pending == old(pending) + 1
+
+func BatchCollector.Commit
+  opt sequential
+  panics-iff br.committed
+  requires br != nil && br.batchedMuts != nil
+  requires 0 <= br.writtenValuesCounter && br.writtenValuesCounter <= len(br.writtenValues)
+  requires forall k Int :: 0 <= k && k < br.writtenValuesCounter ==> br.writtenValues[k] != nil
+  modifies br.committed, ghost(ndone), ghost(donelog), ghost(ncommit), ghost(ncancel), ghost(commitok), ghost(pending)
+  ghost before call BatchWriteObject.BatchWriteDone: assert sel(ncommit, br.batchedMuts) == old(sel(ncommit, br.batchedMuts)) + 1 && sel(commitok, br.batchedMuts)
+  ghost after call BatchedMutations.Commit: pending = (result == nil ? pending - br.writtenValuesCounter : pending)
+  loop 1 invariant 0 <= i && i <= br.writtenValuesCounter && ndone == old(ndone) + i
+  loop 1 invariant forall k Int :: 0 <= k && k < i ==> sel(donelog, old(ndone) + k) == br.writtenValues[k]
+  loop 1 invariant forall k Int :: k < old(ndone) ==> sel(donelog, k) == old(sel(donelog, k))
+  loop 1 invariant ncommit == upd(old(ncommit), br.batchedMuts, old(sel(ncommit, br.batchedMuts)) + 1) && sel(commitok, br.batchedMuts) && ncancel == old(ncancel) && pending == old(pending) - br.writtenValuesCounter
+  ensures br.committed
+  -- nothing to write: cancelled, not committed, nobody notified
+  ensures old(br.writtenValuesCounter) == 0 ==> r0 == nil && ndone == old(ndone) && ncommit == old(ncommit) && sel(ncancel, br.batchedMuts) == old(sel(ncancel, br.batchedMuts)) + 1
+  -- otherwise: exactly one Commit of this collector's mutations, never a Cancel
+  ensures old(br.writtenValuesCounter) > 0 ==> ncancel == old(ncancel) && ncommit == upd(old(ncommit), br.batchedMuts, old(sel(ncommit, br.batchedMuts)) + 1) && (r0 == nil <==> sel(commitok, br.batchedMuts))
+  -- a failed commit notifies nobody
+  ensures r0 != nil ==> ndone == old(ndone) && donelog == old(donelog)
+  -- a successful one notifies every recorded object once, in order, after the commit (asserted above)
+  ensures r0 == nil ==> ndone == old(ndone) + br.writtenValuesCounter
+  ensures r0 == nil ==> forall k Int :: 0 <= k && k < br.writtenValuesCounter ==> sel(donelog, old(ndone) + k) == br.writtenValues[k]
+  ensures forall k Int :: k < old(ndone) ==> sel(donelog, k) == old(sel(donelog, k))
+  ensures r0 == nil ==> pending == old(pending) - br.writtenValuesCounter
+  ensures r0 != nil ==> pending == old(pending)
+
+-- ---------------------------------------------------------------------------------------------------------------
+-- the writer
+
+type BatchedWriter
+  monitor startStopMutex level 1
+
+assume-func github.com/iotaledger/hive.go/runtime/timeutil.CleanupTimer(t)
+  ensures true
+func KVStore.Batched(s) (r0, err)
+  ensures err == nil ==> r0 != nil
+
+-- the writer goroutine is counted before it exists
+func BatchedWriter.startBatchWriter
+  requires bw != nil && unlocked(bw.startStopMutex)
+  requires bw.store != nil && bw.opts != nil && bw.opts.batchSize >= 1 && pending == 0 && !storefailed
+  modifies everything
+  ensures unlocked(bw.startStopMutex)
+
+-- stop: clears running and waits for the writer while still holding the start/stop mutex (a concurrent start or a
+-- second stop cannot slip in between the flag and the wait)
+func BatchedWriter.StopBatchWriter
+  requires bw != nil && unlocked(bw.startStopMutex)
+  modifies everything
+  ghost before call WaitGroup.Wait: assert held(bw.startStopMutex) && !aload(bw.running)
+  ensures unlocked(bw.startStopMutex) && !aload(bw.running)
+  ensures old(aload(bw.running)) ==> sel(sync.wgwaited, addr(bw.writeWg))
+
+-- an accepted object is counted before it is published on the queue
+func BatchedWriter.Enqueue
+  opt assume-no-overflow
+  requires bw != nil && object != nil && unlocked(bw.startStopMutex)
+  modifies everything
+  ghost at entry: counted = false
+  ghost before call Int32.Add: cnt0 = aload(bw.scheduledCount)
+  ghost after call Int32.Add: counted = true
+  ghost before send: assert counted && aload(bw.scheduledCount) == cnt0 + 1
+
+-- the lazily started writer: what startBatchWriter needs
+func BatchedWriter.Enqueue$1
+  requires bw != nil && *bw != nil && unlocked((*bw).startStopMutex)
+  requires (*bw).store != nil && (*bw).opts != nil && (*bw).opts.batchSize >= 1 && pending == 0 && !storefailed
+  modifies everything
+
+-- the writer loop: every collector that received objects is committed before it is dropped (pending == 0 whenever
+-- the loop condition is evaluated), the writer leaves only when it is not running and nothing is scheduled, and
+-- it leaves the WaitGroup exactly once. A failing store stops the writer (panic): fail-stop, only after the store
+-- reported the error (ghost storefailed).
+func BatchedWriter.runBatchWriter
+  opt thread
+  opt assume-no-overflow
+  panics-when storefailed
+  requires bw != nil && bw.store != nil && bw.opts != nil && bw.opts.batchSize >= 1
+  requires sel(sync.wgcount, addr(bw.writeWg)) >= 1         -- the starter has counted this goroutine (Add before go)
+  requires pending == 0 && !storefailed
+  modifies everything
+  ghost after call KVStore.Batched: storefailed = storefailed || r1 != nil
+  ghost after call BatchCollector.Commit: storefailed = storefailed || result != nil
+  ghost before call BatchCollector.Add: assume objectToPersist != nil     -- only Enqueue sends, and it has called a method on the object
+  loop 1 invariant !storefailed && pending == 0 && sync.wgcount == old(sync.wgcount) && bw.store != nil && bw.opts != nil && bw.opts.batchSize >= 1
+  loop 2 invariant !storefailed && sync.wgcount == old(sync.wgcount) && bw.store != nil && bw.opts != nil && bw.opts.batchSize >= 1
+  loop 2 invariant batchCollector != nil && !batchCollector.committed && batchCollector.batchedMuts != nil && batchCollector.scheduledCount != nil
+  loop 2 invariant 0 <= batchCollector.writtenValuesCounter && batchCollector.writtenValuesCounter < len(batchCollector.writtenValues) && len(batchCollector.writtenValues) == batchCollector.batchSize
+  loop 2 invariant pending == batchCollector.writtenValuesCounter
+  loop 2 invariant forall k Int :: 0 <= k && k < batchCollector.writtenValuesCounter ==> batchCollector.writtenValues[k] != nil
+  ensures pending == 0
+  ensures !aload(bw.running) && aload(bw.scheduledCount) == 0          -- sequential reading: what the writer itself last observed
+  ensures sel(sync.wgcount, addr(bw.writeWg)) == old(sel(sync.wgcount, addr(bw.writeWg))) - 1
+
+-- collectValues: collects until the batch is full or the time-out fires (then the batch is committed), or until a
+-- flush is requested (then the collector is handed back uncommitted, with everything it has collected)
+func BatchedWriter.runBatchWriter$1
+  opt assume-no-overflow
+  panics-when storefailed
+  requires bw != nil && *bw != nil && (*bw).opts != nil && batchCollector != nil && shouldFlush != nil && !storefailed
+  requires *batchCollector != nil && !(*batchCollector).committed && (*batchCollector).batchedMuts != nil && (*batchCollector).scheduledCount != nil
+  requires 0 <= (*batchCollector).writtenValuesCounter && (*batchCollector).writtenValuesCounter < len((*batchCollector).writtenValues) && len((*batchCollector).writtenValues) == (*batchCollector).batchSize
+  requires pending == (*batchCollector).writtenValuesCounter
+  requires forall k Int :: 0 <= k && k < (*batchCollector).writtenValuesCounter ==> (*batchCollector).writtenValues[k] != nil
+  modifies *shouldFlush, (*batchCollector).committed, (*batchCollector).writtenValuesCounter, elems((*batchCollector).writtenValues), atomic((*batchCollector).scheduledCount)
+  modifies ghost(nreset), ghost(nwrite), ghost(wmuts), ghost(pending), ghost(ndone), ghost(donelog), ghost(ncommit), ghost(ncancel), ghost(commitok), ghost(storefailed)
+  ghost after call BatchCollector.Commit: storefailed = storefailed || result != nil
+  ghost before call BatchCollector.Add: assume objectToPersist != nil     -- only Enqueue sends, and it has called a method on the object
+  loop 1 invariant !storefailed && *batchCollector == old(*batchCollector) && *shouldFlush == old(*shouldFlush) && !(*batchCollector).committed
+  loop 1 invariant 0 <= (*batchCollector).writtenValuesCounter && (*batchCollector).writtenValuesCounter < len((*batchCollector).writtenValues) && len((*batchCollector).writtenValues) == (*batchCollector).batchSize
+  loop 1 invariant pending == (*batchCollector).writtenValuesCounter
+  loop 1 invariant forall k Int :: 0 <= k && k < (*batchCollector).writtenValuesCounter ==> (*batchCollector).writtenValues[k] != nil
+  ensures !storefailed && *batchCollector == old(*batchCollector)
+  -- either everything collected has been committed ...
+  ensures !*shouldFlush ==> (*batchCollector).committed && pending == 0 && !old(*shouldFlush)
+  -- ... or a flush was requested and the open collector goes back to the caller
+  ensures *shouldFlush && !old(*shouldFlush) ==> !(*batchCollector).committed && pending == (*batchCollector).writtenValuesCounter && 0 <= (*batchCollector).writtenValuesCounter && (*batchCollector).writtenValuesCounter < len((*batchCollector).writtenValues)
+  ensures *shouldFlush && !old(*shouldFlush) ==> forall k Int :: 0 <= k && k < (*batchCollector).writtenValuesCounter ==> (*batchCollector).writtenValues[k] != nil
+@*/
